@@ -124,7 +124,9 @@ def run_native(prop, tier, seed, extra=None):
     mod_path = os.path.join(ROOT, 'harness', 'native', prop + '.py')
     if not os.path.exists(mod_path):
         return None
-    out_path = os.path.join(os.environ.get('PYVC_EVIDENCE_DIR') or os.path.join(ROOT, 'evidence'), f'.native_{prop}.json')
+    evdir = os.environ.get('PYVC_EVIDENCE_DIR') or os.path.join(ROOT, 'evidence')
+    os.makedirs(evdir, exist_ok=True)          # a scratch evidence directory may not exist yet (the native part runs before the evidence is written)
+    out_path = os.path.join(evdir, f'.native_{prop}.json')
     cmd = [VENV_PY, os.path.join(ROOT, 'harness', 'run_native.py'), prop, '--tier', tier, '--seed', str(seed),
            '--out', out_path]
     if extra:
